@@ -464,6 +464,10 @@ def run(model, tier="quick"):
                   "deposit: impact split pro rata to the deposited values; each side minted with its own in-price",
                   opaque=["getPriceImpactUsd", "calc_token_amount", "get_gm_price"])
     res.floor("obligations", len(res.obligations), 35)
+    from ..rules.fresh import fresh_rule
+    if "R-FRESH" not in res.rules:
+        res.rules.append("R-FRESH")
+    fresh_rule(model, res, scope=('demeter/gmx/',))
     res.assumptions = ["data columns: *_price scaled by 1e30, aum by 1e30, glp supply by 1e18 (loader)",
                        "get_mint_amount's split of the price impact between the two sides is not compared (see not_decided)"]
     res.not_decided = ["round trips never profit (inequality over pool states)",
